@@ -264,10 +264,14 @@ class SeqOp(OpDef):
         self.name, self.fn = name, fn
 
     def np(self, a, p):
-        out = a[0]
+        # (no NumPy namesake: the reference is the documented fold, spelled the way MyGrad spells
+        # it - Python's sum() starts from the int 0, which matters for dtype promotion only)
+        if self.fn == "add":
+            return np.asarray(sum(np.asarray(x) for x in a))
+        out = np.asarray(a[0])
         for x in a[1:]:
-            out = np.add(out, x) if self.fn == "add" else np.multiply(out, x)
-        return out
+            out = out * np.asarray(x)
+        return np.asarray(out)
 
     def mg(self, mg, spell, a, p, kw):
         return getattr(mg, self.name)(*a, **kw)
